@@ -66,7 +66,7 @@ def _distinct(ir):
 def strategy(mode, knob=None):
     g = domain.ir_strategy(allowed=_CORE_GENERAL, min_params=2, max_params=5).map(_distinct)
     a = domain.ir_strategy(allowed=_CORE_ARGPARSE, min_params=1, max_params=5, argparse_only=True,
-                           base_exclude=("int_literal", "none_default", "required_bool", "single_literal")).map(_distinct)
+                           base_exclude=()).map(_distinct)
     return st.builds(lambda x, y: {"general": x, "argparse": y}, g, a)
 
 
